@@ -18,6 +18,7 @@ declare -A DEST=( [C01-a]=tests/seed_demo.rs [C03-a]=tests/seed_c03_demo.rs [C05
  [C08-b]=tests/c08b_demo.rs [C19-b]=tests/c19_demo.rs [C03-b]=tests/seed_c03b_demo.rs [C10-b]=tests/seed_c10b.rs
  [C11-b]=tests/c11_demo.rs [C18-b]=tests/seed_c18b.rs [C14-b]=crates/polytune-server-core/tests/c14_b_demo.rs
  [C16-b]=crates/polytune-server-core/tests/c16_b_demo.rs
+ [C02-b]=tests/seed_c02b_demo.rs [C06-b]=tests/c06b_demo.rs [C07-b]=tests/c07b_demo.rs [C20-b]=tests/c20_demo.rs
  [C20-a]=MOD:src/transpose/seed_demo.rs:src/transpose.rs:seed_demo )
 names=${@:-$(ls -d /verif/seeded/*/ | xargs -n1 basename)}
 for s in $names; do
@@ -37,9 +38,11 @@ for s in $names; do
       APPEND:*) cargo test --offline -p polytune --lib c10_demo 2>&1 | tail -3 | tr '\n' ' ';;
       MOD:*) IFS=: read -r _ f parent m <<< "$dest"; cargo test --offline -p polytune --lib $m 2>&1 | grep -E "^test result|error\[" | tr '\n' ' ';;
       crates/*) t=$(basename $dest .rs); cargo test --offline -p polytune-server-core --test $t 2>&1 | grep -E "^test result|error\[" | tr '\n' ' ';;
-      *) t=$(basename $dest .rs); cargo test --offline -p polytune --features __bench --test $t 2>&1 | grep -E "^test result|error\[" | tr '\n' ' ';;
+      *) t=$(basename $dest .rs); RUSTFLAGS="$DEMOFLAGS" cargo test --offline -p polytune --features __bench --test $t 2>&1 | grep -E "^test result|error\[" | tr '\n' ' ';;
     esac
   }
+  # (C20-b's demonstration drives the guarded verification wrappers)
+  if [ $s = C20-b ]; then DEMOFLAGS="--cfg polytune_verif --check-cfg cfg(polytune_verif)"; else DEMOFLAGS=""; fi
   # with the change
   git apply $d/patch.diff || { echo "$s: PATCH DOES NOT APPLY" >> $LOG; continue; }
   if [ $server = 1 ]; then
